@@ -498,13 +498,20 @@ func runC03(c *eng.Ctx) {
 		empty := eng.CmpEdges(fn, eng.Call(-1, "server/commitlog.commitLog.OldestOffset"), eng.IntConst(-1), eng.EQ)
 		// nothing committed at all (F92): also a reason to wait — offset > hw does not cover a negative offset at hw == -1
 		empty = append(empty, eng.CmpEdges(fn, eng.Call(-1, "server/commitlog.commitLog.HighWatermark"), eng.IntConst(-1), eng.EQ)...)
+		// ... or one named condition (`mustWait := offset > hw || hw == -1 || …`): the edge on which one of them holds whichever
+		// way the condition came to be true
+		hwV := eng.Call(-1, "server/commitlog.commitLog.HighWatermark")
+		oneOf := eng.EdgesWhere(fn, func(a eng.AtomView) bool {
+			return a.RelHolds(eng.Param("offset"), hwV, eng.GT) || a.RelHolds(hwV, eng.IntConst(-1), eng.EQ) ||
+				a.RelHolds(eng.Call(-1, "server/commitlog.commitLog.OldestOffset"), eng.IntConst(-1), eng.EQ)
+		})
 		n := 0
 		for _, r := range eng.Returns(fn) {
 			if len(eng.RetVals(r)) != 2 || !eng.NilConst(eng.RetVals(r)[1]) {
 				continue
 			}
 			parked := readerSegIsNil(eng.RetVals(r)[0])
-			g, _ := eng.GuardedBy(fn, r, append(append([]eng.Edge{}, beyond...), empty...))
+			g, _ := eng.GuardedBy(fn, r, append(append(append([]eng.Edge{}, beyond...), empty...), oneOf...))
 			n++
 			if parked {
 				c.Check(g, "parked reader returned", c.Pos(r), "only when offset > hw, nothing is committed or the log is empty", "a segment-less (parked) reader is returned on a path where the offset is committed and the log non-empty")
